@@ -7,7 +7,7 @@
 From hls Require Import Base Float Lex Kinds Types Tags Line Keys Media.
 From hls.Generated Require Import Tables.
 From hls Require Import Master.
-From hls.Proofs Require Import Build Lexical Values TextLines AttrText TagText TagTextMedia TagTextVariant TagTextSegment TagTextDateRange FloatRound FloatGuard FloatAll MediaParsedWf.
+From hls.Proofs Require Import Build Lexical Values TextLines AttrText TagText TagTextMedia TagTextVariant TagTextSegment TagTextDateRange FloatRound FloatGuard FloatAll MediaParsedWf MediaParsedFloats.
 Open Scope N_scope.
 
 Theorem C18_uint : forall w n, n < 2 ^ w -> parse_uint w (print_uint n) = Some n.
@@ -275,7 +275,7 @@ Print Assumptions C18_uf32_text.
    (the hypotheses float_rt / value_domain of the text-level theorems hold for everything parsing can produce) *)
 Theorem C18_parsed_float : forall s x, parse_float s = Ok x ->
   parse_float (print_f32 x) = Ok x /\ float_rt x = true /\ value_domain (VFloat x) = true.
-Proof. exact parsed_float_roundtrip. Qed.
+Proof. exact parsed_float_domain. Qed.
 Check C18_parsed_float : forall s x, parse_float s = Ok x ->
   parse_float (print_f32 x) = Ok x /\ float_rt x = true /\ value_domain (VFloat x) = true.
 Print Assumptions C18_parsed_float.
